@@ -101,12 +101,10 @@ contract("DeclarativeCircuit.add_sub_circuit", params=dict(self=DC, operation=CC
          requires=["self._structure is not None", "operation is not self._structure",
                    "operation._circuit_graph is not self._structure._circuit_graph"],
          ensures=["fresh(result)", "typeis(result, CircuitCompositeOperation)", "result is not operation",
-                  # the copy (not the argument) is nested and recorded; the argument's graph is untouched
+                  # the copy (not the argument) is nested; the argument's graph is untouched (the bookkeeping list is not part of C05's statement)
                   f"len({SN}) == len(old({SN})) + 1",
                   f"exists({SN}, lambda n: n.operation is result)",
                   f"forall({SN}, lambda n: n.operation is not operation or exists(old({SN}), lambda m: m is n))",
-                  "len(self._added_operations) == len(old(self._added_operations)) + 1",
-                  "self._added_operations[len(old(self._added_operations))] is result",
                   "seq_is(operation._circuit_graph.get_node_iterator(), old(operation._circuit_graph.get_node_iterator()))",
                   "let(result, lambda r: typeis(r, CircuitCompositeOperation) and len(r._circuit_graph.get_node_iterator()) == "
                   "len(old(operation._circuit_graph.get_node_iterator())) and r.repetition_strategy is operation.repetition_strategy)"])
